@@ -322,6 +322,42 @@ func clientSkeletons(repo string) string {
 	emit("Client_Reconnect", methods["Client.Reconnect"], 0)
 	emit("Client_TransportPhase", methods["Client.TransportPhase"], 0)
 	emit("Client_Handshake", methods["Client.Handshake"], 0)
+	// the Send* helpers: which constructor each calls, and that its result (and nothing else) goes to Send
+	helperFacts := func(recv string) string {
+		var rows []string
+		for _, h := range []string{"SendMessage", "SendMessageExt", "SendForward", "SendPacked", "SendPackedFromBytes", "SendCompressed", "SendCompressedFromBytes"} {
+			fd := methods[recv+"."+h]
+			row := fmt.Sprintf("(%s, \"method not found\", false)", leanStr(h))
+			if fd != nil && fd.Body != nil && fd.Type.Params != nil {
+				c := &clCtx{fset: fset, recv: recvNameOf(fd)}
+				var params []string
+				for _, f := range fd.Type.Params.List {
+					for _, n := range f.Names {
+						params = append(params, n.Name)
+					}
+				}
+				args := strings.Join(params, ", ")
+				var body []string
+				for _, st := range fd.Body.List {
+					body = append(body, c.src(st))
+				}
+				txt := strings.Join(body, " ; ")
+				row = fmt.Sprintf("(%s, %s, false)", leanStr(h), leanStr("unknown: "+txt))
+				for _, ctor := range []string{"NewMessage", "NewMessageExt", "NewForwardMessage", "NewPackedForwardMessage", "NewPackedForwardMessageFromBytes",
+					"NewCompressedPackedForwardMessage", "NewCompressedPackedForwardMessageFromBytes"} {
+					if txt == "msg := protocol."+ctor+"("+args+") ; return "+c.recv+".Send(msg)" {
+						row = fmt.Sprintf("(%s, %s, false)", leanStr(h), leanStr(ctor))
+					}
+					if txt == "msg, err := protocol."+ctor+"("+args+") ; if err == nil { err = "+c.recv+".Send(msg) } ; return err" {
+						row = fmt.Sprintf("(%s, %s, true)", leanStr(h), leanStr(ctor))
+					}
+				}
+			}
+			rows = append(rows, row)
+		}
+		return "[\n  " + strings.Join(rows, ",\n  ") + "]"
+	}
+	fmt.Fprintf(&b, "/-- the `Send*` helpers of `Client`: (helper, the constructor it calls with its own arguments, whether the constructor can fail); the message goes\nto `Send` unchanged, and a constructor error is returned without a send -/\ndef clientHelpers : List (String × String × Bool) := %s\n\n", helperFacts("Client"))
 	b.WriteString("end FV.Gen.Client\n")
 	return b.String()
 }
